@@ -1,3 +1,4 @@
+import Mainchain.Lemmas.Sort
 import Mainchain.Model.Genesis
 import Mainchain.Lemmas.EntBooksReach
 /-
@@ -101,7 +102,7 @@ theorem find_foldl_collect {ν : Type} (m : List (Nat × ν)) : ∀ (l : List Na
         | some w => simp only; exact find_insert_ne _ _ _ _ (fun e => he e.symm)
 
 theorem mem_sortNat (xs : List Nat) (x : Nat) : x ∈ sortNat xs ↔ x ∈ xs := by
-  unfold sortNat; exact List.mem_mergeSort
+  unfold sortNat; exact mem_isort _ _
 
 theorem importEnt_orders (e : EntState) (x : Nat) : find? (importEnt e).orders x = find? e.orders x := by
   show find? ((sortNat (keys e.orders)).foldl (collectStep e.orders) []) x = _
